@@ -208,6 +208,65 @@ func checkNeighbours(c streamCase) (string, bool, bool) {
 	return "", true, true
 }
 
+// hugeRecords: single data records of up to 130050 bytes (255 fields and 255
+// developer fields of 255 bytes each is what a definition can describe), as
+// unknown messages and as a known message made of unlisted fields, between
+// ordinary records whose values must come out unchanged.
+func hugeRecords(rec *hx.Recorder) {
+	n := int64(0)
+	for _, g := range []uint16{0xFF30, 20} {
+		for _, fd := range [][2]int{{255, 0}, {255, 2}, {255, 3}, {200, 57}, {255, 60}, {255, 255}, {1, 255}} {
+			for _, be := range []bool{false, true} {
+				def := fitmodel.Rec{IsDef: true, Local: 5, BigEndian: be, Global: g, HasDev: fd[1] > 0}
+				size := 0
+				for i := 0; i < fd[0]; i++ {
+					num := byte(i)
+					if g == 20 {
+						// field numbers the record message does not list
+						num = byte(130 + i%120)
+					}
+					if num == 253 {
+						num = 252
+					}
+					def.Fields = append(def.Fields, fitmodel.FieldDef{Num: num, Size: 255, Base: 0x0D})
+					size += 255
+				}
+				if g == 20 && len(def.Fields) > 100 {
+					// keep field numbers unique: unlisted numbers are scarce,
+					// so fewer, and let the developer fields make up the size
+					def.Fields = def.Fields[:100]
+					size = 100 * 255
+				}
+				for i := 0; i < fd[1]; i++ {
+					def.Dev = append(def.Dev, fitmodel.DevFieldDef{Num: byte(i), Size: 255, Idx: 0})
+					size += 255
+				}
+				raw := make([]byte, size)
+				for i := range raw {
+					raw[i] = byte(i*7 + i>>8)
+				}
+				s := &fitmodel.Stream{HeaderSize: 14, Proto: 0x20, Recs: []fitmodel.Rec{
+					{IsDef: true, Global: 0, Fields: []fitmodel.FieldDef{{Num: 0, Size: 1, Base: 0}}}, {Raw: []byte{4}},
+					{IsDef: true, Local: 1, BigEndian: be, Global: 20, Fields: []fitmodel.FieldDef{{Num: 253, Size: 4, Base: 0x86}, {Num: 3, Size: 1, Base: 2}}},
+					{Local: 1, Raw: append(fitmodel.PutWireUint(0x3B9ACA00, 4, be), 101)},
+					def,
+					{Local: 5, Raw: raw},
+					{Local: 1, Raw: append(fitmodel.PutWireUint(0x3B9ACA01, 4, be), 102)},
+					{Local: 5, Raw: raw},
+					{Local: 1, Raw: append(fitmodel.PutWireUint(0x3B9ACA02, 4, be), 103)},
+				}}
+				c := streamCase{FileType: 4, Stream: s, Text: fmt.Sprintf("(message %d with %d fields and %d developer fields of 255 bytes: records of %d bytes, bigEndian=%v)", g, len(def.Fields), fd[1], size, be)}
+				n++
+				if sig, msg, ok := checkStream(rec, c, map[string]int{}); !ok {
+					rec.Fail("huge-records", sig, msg, c)
+				}
+			}
+		}
+	}
+	rec.Eval("huge-records", n)
+	rec.NonTrivialEnum(n)
+}
+
 func TestC02(t *testing.T) {
 	hx.Main(t, "C02", func(rec *hx.Recorder) {
 		if rp, ok := hx.LoadReplay(); ok {
@@ -231,6 +290,7 @@ func TestC02(t *testing.T) {
 
 		if hx.FirstShard() {
 			sweep(t, rec)
+			hugeRecords(rec)
 		}
 
 		hx.RapidCheck(t, rec, "streams", func(rt *rapid.T, fail func(string, string, any)) {
